@@ -80,7 +80,7 @@ def r_C10e(root):
     return inst, out
 def r_C13d_C34f_C09d(root):
     out = []; inst = 0
-    t = load(root, M); drv = find(t, "parse_tree_to_objgraph"); fi = sem.info(drv)
+    t = load(root, M); drv = find_i(root, M, "parse_tree_to_objgraph"); fi = sem.info(drv)
     # ---- C13.d
     cs = [c for c in calls(drv, own=True) if callee_name(c) == "call_obj_processors"]
     if not cs: raise AnalysisError("call of call_obj_processors not found in parse_tree_to_objgraph")
@@ -101,7 +101,7 @@ def r_C13d_C34f_C09d(root):
                 out.append(Finding("C13", "C13.d", M, "parse_tree_to_objgraph", " ".join(ast.unparse(g).split())[:110], "whether the processors of an included model run is decided from the *main* model's %s: processors registered on the metamodel of an imported file of another language are skipped" % sorted(foreign), witness="reference <language> + importURI; only the imported language registers object processors"))
         ob("C13", "C13.d", M, "parse_tree_to_objgraph", ast.unparse(c), okc)
     # ---- C34.f
-    pn = find(t, "parse_tree_to_objgraph.process_node"); fip = sem.info(pn)
+    pn = find_i(root, M, "parse_tree_to_objgraph.process_node"); fip = sem.info(pn)
     st = [n for n in own_nodes(pn) if (isinstance(n, ast.Assign) and isinstance(n.targets[0], ast.Subscript) and ast.unparse(n.targets[0].value) == "pos_rule_dict") or (isinstance(n, ast.Call) and callee_name(n) == "setdefault" and "pos_rule_dict" in ast.unparse(n.func))]
     for s in st:
         inst += 1; okf = True
@@ -115,9 +115,8 @@ def r_C13d_C34f_C09d(root):
                 out.append(Finding("C34", "C34.f", M, "parse_tree_to_objgraph.process_node", " ".join(ast.unparse(g).split())[:100], "an object is entered into the span map only if it is truthy: objects of user classes defining __len__/__bool__ that are currently falsy have no span", witness="classes=[Block] with __len__, an empty block"))
         ob("C34", "C34.f", M, "parse_tree_to_objgraph.process_node", "span registration guarded by None-test", okf)
     # ---- C09.d
-    raises = [n for n in own_nodes(drv) if isinstance(n, ast.Raise) and "error_text" in ast.unparse(n)]
-    if not raises: raise AnalysisError("'Unresolvable cross references' raise not found")
-    blk = next((a for a in ancestors(raises[0]) if isinstance(a, ast.If)), None)
+    from sa.rules import resolver as RS
+    drv, blk, raises = RS.unresolved_raises(root); fi = sem.info(drv)
     loops = [n for n in ast.walk(blk) if isinstance(n, ast.For)] if blk is not None else []
     outer = next((l for l in loops if isinstance(l.iter, ast.Name) and l.iter.id == "models"), None)
     inst += 1; okd = True
